@@ -681,6 +681,26 @@ def check_graph(run, rng, spec: Dict[str, Any], engine: str, case: Dict[str, Any
         raise AssertionError(f'harness: built graph has {len(exp)} reachable elements, spec has {len(spec["elems"])}')
     for cfg in graph_configs(rng, feat, all_modes):
         roundtrip(run, root, exp, feat, cfg, case, engine)
+    # the writers called with nothing but the file (every default argument): documented as version 5 / format "dmx" 1 /
+    # ASCII, nested text with UUIDs - compared through the explicit configuration that spells those defaults out
+    if not feat['non_ascii'] and not feat['nul']:
+        from srctools.dmx import Element as _El
+        for label, call, cfg in (('export_binary(file)', root.export_binary, {'enc': 'binary', 'version': 5, 'unicode': 'ascii', 'fmt': ['dmx', 1]}),
+                                 ('export_kv2(file)', root.export_kv2, {'enc': 'kv2', 'flat': False, 'cull': False, 'unicode': 'ascii', 'fmt': ['dmx', 1]})):
+            b_def, b_exp = io.BytesIO(), io.BytesIO()
+            try:
+                call(b_def)
+                if cfg['enc'] == 'binary':
+                    root.export_binary(b_exp, 5, 'dmx', 1, 'ascii')
+                else:
+                    root.export_kv2(b_exp, 'dmx', 1, flat=False, unicode='ascii', cull_uuid=False)
+            except Exception as exc:
+                run.violation(f'{label} with default arguments raised {type(exc).__name__}: {exc}', key='default-arguments-differ', engine=engine, case=case)
+                continue
+            run.count('default_argument_exports')
+            if b_def.getvalue() != b_exp.getvalue():
+                run.violation(f'{label} with default arguments differs from the call that spells the documented defaults out',
+                              key='default-arguments-differ', engine=engine, case=case)
     after = snapshot(root)
     d = diff_nodes(exp, after, True, True)
     if d is not None:
@@ -985,7 +1005,7 @@ def main(run, shard=(0, 1)) -> None:
         name_attr_case(run)
     probe.report(run)
     probe.check_reached(run)
-    run.require('binary_parses', 'kv2_parses', 'real_file_roundtrips', 'repeated_exports', 'graphs_re_exported_after_edits', 'independent_decodes_agree', 'to_kv1_calls', 'to_kv1_after_wire',
+    run.require('default_argument_exports', 'binary_parses', 'kv2_parses', 'real_file_roundtrips', 'repeated_exports', 'graphs_re_exported_after_edits', 'independent_decodes_agree', 'to_kv1_calls', 'to_kv1_after_wire',
                 'graphs_with_sharing', 'graphs_with_cycle', 'graphs_with_self_loop', 'graphs_with_nameless_elements', 'stub_occurrences', 'null_in_array_occurrences',
                 'empty_array_occurrences', 'scalar_matrix_occurrences', 'name_needs_escape_occurrences',
                 'unicode_string_array_occurrences', 'unicode_type_occurrences', 'ascii_mode_refused_non_ascii',
